@@ -1,5 +1,5 @@
 (* C07 -- a response is delivered only to the connection that sent its request, in order. *)
-From MH Require Import proofs.Server_proofs proofs.Write_proofs.
+From MH Require Import proofs.Server_proofs proofs.Write_proofs proofs.Progress_proofs proofs.Provenance_proofs.
 
 (* The token the application holds for a yielded request is the descriptor number.  In every
    world reachable by any client behaviour, any event order and ANY choice of unused descriptor
@@ -61,11 +61,97 @@ Check ((fun BUF w g => eq_refl) : forall BUF w g, handle_event BUF w (EvIn g) =
       end
   end).
 
-(* PARTIAL: the end-to-end statement "every byte a client receives belongs to a response that
-   answers one of its own requests" is the composition of the theorems above with K3 (bytes written
-   on a descriptor reach that descriptor's peer); it is not stated as one theorem over histories
-   with a provenance log.  The correspondence run decides it on real sockets with tagged requests
-   and echoing responses. *)
+(* for calm worlds (no client has closed): over any poll, in any order of the ready events, every
+   connection persists with the same client and its wire is only extended by server-generated
+   replies to that client's own input; a response supplied with a token is appended to the wire of
+   the connection instance that issued the token and to no other *)
+Theorem C07_poll_extends_own_wire_only : forall BUF, (2 <= BUF)%nat -> N.of_nat BUF < U32_LIMIT ->
+  forall w toks es w' ys, Inv BUF w toks -> Calm w -> Forall (evt_live w) es -> NoDup (map ev_key es) ->
+  poll_with BUF w es = PYield w' ys -> conserved w w'.
+Proof. exact poll_conserves. Qed.
+Theorem C07_respond_reaches_token_owner_only : forall BUF w t1 t2 fd g r w',
+  Inv BUF w (t1 ++ (fd, g) :: t2) -> Calm w -> respond w fd r = inl w' ->
+  Calm w' /\
+  (exists x x', alookup fd (w_conns w) = Some x /\ sc_gid x = g /\ alookup fd (w_conns w') = Some x' /\
+                sc_client x' = sc_client x /\ wire w' x' = wire w x ++ serialize r) /\
+  forall fd0 x0, fd0 <> fd -> alookup fd0 (w_conns w) = Some x0 -> alookup fd0 (w_conns w') = Some x0 /\ wire w' x0 = wire w x0.
+Proof. exact respond_conserves. Qed.
+
+(* ---- provenance for ALL histories: clients may close at any time, descriptor numbers may be reused ----
+   A history is any sequence of: polls (any contract-abiding batch, any order), responses for held
+   tokens, and arbitrary actions of clients and environment (send, close, shut down, read, connect,
+   signal, change the limit).  There is ONE assignment beta of clients to connection instances that is
+   right at every moment: whenever instance g is in the table, under whatever descriptor number, it
+   serves client beta g; the world invariant holds throughout (so, by C07_token_inv, a held token
+   (fd, g) names a table entry whose instance is g). *)
+Theorem C07_one_binding : forall BUF, (2 <= BUF)%nat -> N.of_nat BUF < U32_LIMIT ->
+  forall tr, history BUF tr ->
+  exists beta, Forall (fun s => bound beta (fst s) /\ Inv BUF (fst s) (snd s)) tr /\
+               match tr with s :: _ => Forall (fun s0 => (w_nextg (fst s0) <= w_nextg (fst s))%nat) tr | [] => True end.
+Proof. exact one_binding. Qed.
+Check ((fun beta w => eq_refl) : forall beta w, bound beta w =
+  forall fd x, alookup fd (w_conns w) = Some x -> beta (sc_gid x) = sc_client x).
+Check (HPoll : forall BUF w toks es w' ys, Forall (evt_ok w) es -> NoDup (map ev_key es) -> ~ In KKill (map ev_key es) ->
+    poll_with BUF w es = PYield w' ys -> hstep BUF (w, toks) (w', ytoks ys ++ toks)).
+Check (HRespond : forall BUF w t1 t2 fd g r w', respond w fd r = inl w' -> hstep BUF (w, t1 ++ (fd, g) :: t2) (w', t1 ++ t2)).
+Check (HEnv : forall BUF w toks w', w_conns w' = w_conns w -> w_nextg w' = w_nextg w -> hstep BUF (w, toks) (w', toks)).
+Check (H0 : forall BUF, history BUF [(world0, [])]).
+Check (HS : forall BUF s s' tr, history BUF (s :: tr) -> hstep BUF s s' -> history BUF (s' :: s :: tr)).
+(* a response supplied with token (fd, g) reaches the entry whose instance is g and whose client is
+   beta g -- not whoever else may have been given descriptor fd *)
+Theorem C07_respond_token_client : forall BUF, (2 <= BUF)%nat -> N.of_nat BUF < U32_LIMIT ->
+  forall w t1 t2 fd g r w' beta,
+  Inv BUF w (t1 ++ (fd, g) :: t2) -> respond w fd r = inl w' -> bound beta w ->
+  bound beta w' /\ w_nextg w' = w_nextg w /\ Inv BUF w' (t1 ++ t2) /\
+  exists x, alookup fd (w_conns w) = Some x /\ sc_gid x = g /\ sc_client x = beta g.
+Proof. exact respond_binding. Qed.
+(* every yield carries the descriptor and the instance of the connection that was read *)
+Theorem C07_yield_identity : forall BUF, (2 <= BUF)%nat -> N.of_nat BUF < U32_LIMIT ->
+  forall w toks e w' ys beta, Inv BUF w toks -> handle_event BUF w e = inl (w', ys) -> bound beta w ->
+  exists beta', (forall g, (g < w_nextg w)%nat -> beta' g = beta g) /\ bound beta' w' /\
+    (w_nextg w <= w_nextg w')%nat /\
+    forall fd g r, In (fd, g, r) ys -> exists x, alookup fd (w_conns w) = Some x /\ sc_gid x = g /\ e = EvIn fd.
+Proof. exact event_binding. Qed.
+(* bytes enter the receive queue of client c only from the unsent output of a connection whose
+   client is c (a prefix of it), or as the 503 refusal of c itself; in any world, for any event *)
+Theorem C07_received_bytes_origin : forall BUF w e w' ys c,
+  handle_event BUF w e = inl (w', ys) ->
+  exists d, k_rx (client_of w' c) = k_rx (client_of w c) ++ d /\
+    (d = [] \/
+     (exists fd x rest, e = EvOut fd /\ alookup fd (w_conns w) = Some x /\ sc_client x = c /\ unsent (sc_conn x) = d ++ rest) \/
+     (exists nf rest, e = EvListener nf /\ w_backlog w = c :: rest /\ d = SERVER_FULL_ERROR_MESSAGE)).
+Proof. exact event_delivery. Qed.
+Theorem C07_sweep_delivers_nothing : forall w c, k_rx (client_of (sweep w) c) = k_rx (client_of w c).
+Proof. exact sweep_delivery. Qed.
+Theorem C07_respond_delivers_nothing : forall w fd r w' c, respond w fd r = inl w' -> client_of w' c = client_of w c.
+Proof. exact respond_delivery. Qed.
+(* and unsent output receives only (a) replies the server generated while reading that very
+   connection (100 Continue, 400) and (b) the response supplied with a token, on the entry the token
+   names, dropped if that entry is closed *)
+Theorem C07_read_adds_own_replies_only : forall BUF, (2 <= BUF)%nat -> N.of_nat BUF < U32_LIMIT ->
+  forall w toks fd w' ys, Inv BUF w toks -> evt_ok w (EvIn fd) -> handle_event BUF w (EvIn fd) = inl (w', ys) ->
+  exists x y gen, alookup fd (w_conns w) = Some x /\ alookup fd (w_conns w') = Some y /\
+    unsent (sc_conn y) = unsent (sc_conn x) ++ flat_map serialize gen /\ Forall server_generated gen /\
+    forall fd0, fd0 <> fd -> alookup fd0 (w_conns w') = alookup fd0 (w_conns w).
+Proof. exact read_unsent. Qed.
+Theorem C07_respond_adds_to_token_entry_only : forall w fd r w',
+  respond w fd r = inl w' ->
+  forall fd0 x0, alookup fd0 (w_conns w) = Some x0 ->
+    exists x1, alookup fd0 (w_conns w') = Some x1 /\ sc_gid x1 = sc_gid x0 /\ sc_client x1 = sc_client x0 /\
+      unsent (sc_conn x1) = unsent (sc_conn x0) ++
+        (if Nat.eqb fd0 fd then match sc_st x0 with SClosed => [] | _ => serialize r end else []).
+Proof. exact respond_unsent. Qed.
+Example C07_history_example : exists tr w, history 1024 ((w, [(1%nat, 0%nat)]) :: tr).
+Proof. exact history_example. Qed.
+
+(* What is still not ONE theorem: the concatenation of the statements above into a single sentence
+   about the full byte stream a client reads over a whole history (it would need a ghost log of all
+   bytes ever delivered).  Each link is proved: binding of instances to clients over histories,
+   tokens to instances (C07_token_inv), supplied responses to the token's entry, unsent output to
+   its two sources, received bytes to the unsent output of a connection of that client; what a
+   connection writes is a prefix of what was enqueued on it (C06).  K3 (bytes written on a descriptor
+   reach that descriptor's peer) is the kernel contract.  The correspondence run decides the full
+   statement on real sockets with tagged requests and echoing responses. *)
 
 Print Assumptions C07_token_inv.
 Print Assumptions C07_never_reaped_with_token.
@@ -73,3 +159,13 @@ Print Assumptions C07_inflight_counts_tokens.
 Print Assumptions C07_respond_routes.
 Print Assumptions C07_frame.
 Print Assumptions C07_bytes_are_enqueued_responses.
+Print Assumptions C07_poll_extends_own_wire_only.
+Print Assumptions C07_respond_reaches_token_owner_only.
+Print Assumptions C07_one_binding.
+Print Assumptions C07_respond_token_client.
+Print Assumptions C07_yield_identity.
+Print Assumptions C07_received_bytes_origin.
+Print Assumptions C07_sweep_delivers_nothing.
+Print Assumptions C07_respond_delivers_nothing.
+Print Assumptions C07_read_adds_own_replies_only.
+Print Assumptions C07_respond_adds_to_token_entry_only.
